@@ -186,6 +186,10 @@ def main():
         if not os.path.exists(ENGINE):
             r = sh(['sh', os.path.join(VERIF, 'engine', 'vsymex', 'build.sh')])
             if r.returncode != 0: print('ENGINE-BUILD-FAILED', r.stderr[-2000:]); return 2
+        if spec.get('pre_cmd') and not only:
+            r = sh(spec['pre_cmd'], shell=True, cwd=VERIF, timeout=1800)
+            print((r.stdout or '').strip()[-1500:])
+            if r.returncode != 0: print('INCONCLUSIVE pre_cmd failed: ' + spec['pre_cmd']); return 2
         harnesses = [h for h in spec['harnesses'] if not only or h['name'] == only]
         tus = sorted(set(t for h in harnesses for t in h['tus']))
         if not wait_ok(build_support(ctx) + build_tus(ctx, tus), 'translation units'): return 2
